@@ -30,6 +30,10 @@ class LetFiller(Visitor):
     def __init__(self, override_dict):
         super().__init__()
         self.override_dict = override_dict or {}
+        # Every register rebuilt so far, keyed by the identity of the
+        # original, so that all references to one register (from map
+        # aliases and from gate arguments) end up at the same new register.
+        self.new_registers = {}
 
     ##
     # Visitor Methods
@@ -47,6 +51,7 @@ class LetFiller(Visitor):
         body = self.visit(circuit.body)
         statements = body[1:]
         reg_visitor = RegisterVisitor(self.override_dict)
+        reg_visitor.new_registers = self.new_registers
         registers = [reg_visitor.visit(reg) for reg in circuit.registers.values()]
         macros = [self.visit(macro) for macro in circuit.macros.values()]
         sexpr = [
@@ -101,20 +106,23 @@ class LetFiller(Visitor):
     def visit_NamedQubit(self, qubit):
         """Visit a named qubit that may possibly have its index
         remapped. Doing so will change the name of the qubit."""
-        if isinstance(qubit.alias_index, Constant):
-            new_index = self.resolve_constant(qubit.alias_index)
-            new_from = self.visit(qubit.alias_from)
-            return new_from[new_index]
-        else:
+        new_index = self.visit(qubit.alias_index)
+        new_from = self.visit(qubit.alias_from)
+        if new_index is qubit.alias_index and new_from is qubit.alias_from:
             return qubit
+        return new_from[new_index]
 
     def visit_Register(self, reg):
         """Visit either a fundamental register or a map alias. Either may
         contain lurking let constants."""
+        if id(reg) not in self.new_registers:
+            self.new_registers[id(reg)] = (reg, self.fill_in_register(reg))
+        return self.new_registers[id(reg)][1]
+
+    def fill_in_register(self, reg):
         if reg.fundamental:
             if isinstance(reg.size, Constant):
-                new_size = self.resolve_constant(reg.size)
-                return ["register", reg.name, new_size]
+                return Register(reg.name, self.resolve_constant(reg.size))
             else:
                 return reg
         else:
@@ -171,9 +179,8 @@ class RegisterVisitor(LetFiller):
     def visit_NamedQubit(self, qubit):
         """Visit a named qubit that may possibly have its index
         remapped. Doing so will change the name of the qubit."""
-        if isinstance(qubit.alias_index, Constant):
-            new_index = self.resolve_constant(qubit.alias_index)
-            new_from = self.visit(qubit.alias_from)
-            return NamedQubit(qubit.name, new_from, new_index)
-        else:
+        new_index = self.visit(qubit.alias_index)
+        new_from = self.visit(qubit.alias_from)
+        if new_index is qubit.alias_index and new_from is qubit.alias_from:
             return qubit
+        return NamedQubit(qubit.name, new_from, new_index)
